@@ -27,9 +27,31 @@ def rm_worktree(wt):
     shutil.rmtree(wt, ignore_errors=True)
 
 
+PAM_DST = 'lib/controller/localdb/login_pam.go'
+
+
+def pam_standin(wt, sdir, on):
+    src = os.path.join(sdir, 'login_pam_nocgo.go')
+    if not os.path.exists(src):
+        return
+    if on:
+        shutil.copy(src, os.path.join(wt, PAM_DST))
+    else:
+        sh('git checkout -- %s' % PAM_DST, cwd=wt)
+
+
 def run_demo(wt, meta, sdir):
+    pam_standin(wt, sdir, True)
+    try:
+        return run_demo2(wt, meta, sdir)
+    finally:
+        pam_standin(wt, sdir, False)
+
+
+def run_demo2(wt, meta, sdir):
     pkg = meta.get('demo_pkg_dir', '.')
     demos = [f for f in os.listdir(sdir) if f.endswith('_test.go') or f == 'demo.py']
+    env = dict(GOENV, ARVADOS_API_HOST='x')
     for d in demos:
         if d.endswith('.go'):
             shutil.copy(os.path.join(sdir, d), os.path.join(wt, pkg, d))
@@ -37,7 +59,7 @@ def run_demo(wt, meta, sdir):
         cmd = meta.get('demo_cmd', 'python3 demo.py .').replace('<repo root>', wt)
         r = sh('python3 %s %s' % (os.path.join(sdir, 'demo.py'), wt), cwd=wt)
     else:
-        r = sh(meta['demo_cmd'], cwd=os.path.join(wt, pkg))
+        r = sh(meta['demo_cmd'], cwd=os.path.join(wt, pkg), env=env)
     for d in demos:
         if d.endswith('.go'):
             os.remove(os.path.join(wt, pkg, d))
@@ -56,7 +78,9 @@ def do_import(paths):
                 print(sid, 'PATCH DOES NOT APPLY', ra.stderr); continue
             files = sh('git diff --name-only', cwd=wt).stdout.split()
             pkgs = sorted(set(os.path.dirname(f) for f in files if f.endswith('.go')))
+            pam_standin(wt, src, True)
             build_ok = all(sh('go build . && go test -vet=off -count=1 -run "^$" .', cwd=os.path.join(wt, p)).returncode == 0 for p in pkgs)
+            pam_standin(wt, src, False)
             r1 = run_demo(wt, meta, src)
             ok = r0.returncode == 0 and r1.returncode != 0 and build_ok
             print('%s demo_without=%s demo_with=%s build=%s -> %s' % (sid, r0.returncode, r1.returncode, build_ok, 'CONFIRMED' if ok else 'REJECTED'))
